@@ -175,10 +175,10 @@ def _from_call(fn, b, t, path, seen, depth):
     i = len(fn.blocks[b]['stmts'])
     if n.endswith('as std::ops::Try>::branch'):
         a = t['args'][0]
-        if path[:2] == [('down', 'Continue'), ('f', 0)] and is_place(a):
+        if path[:1] == [('down', 'Continue')] and is_place(a) and (len(path) == 1 or path[1] == ('f', 0)):
             ty = fn.local_ty(a['pl']['l']) if not a['pl']['p'] else (a['pl'].get('ty') or '')
             v = 'Some' if ty.startswith('std::option::Option') else 'Ok'
-            return _from_operand(fn, b, i, a, [('down', v), ('f', 0)] + path[2:], seen, depth)
+            return _from_operand(fn, b, i, a, [('down', v)] + path[1:], seen, depth)
         return [('unknown', 'Try::branch with path %s' % path)]
     if 'FromResidual' in n and path and path[0] in (('down', 'Ok'), ('down', 'Some'), ('down', 'Continue')):
         return []                  # from_residual only ever builds the failure variant
